@@ -139,6 +139,12 @@ pub fn resolve_local<CT>(
                                 resolved: ResolvedRecord::NonAuthoritative { rrs, soa_rr },
                             }
                         }
+                        // `resolve_local` reports delegations as
+                        // `LocalResolutionResult::Delegation`, never as `Done`
+                        ResolvedRecord::Referral { .. } => LocalResolutionResult::CNAME {
+                            rrs,
+                            cname_question,
+                        },
                     },
                     Ok(LocalResolutionResult::Partial { rrs: mut cname_rrs }) => {
                         tracing::trace!("got partial cname answer");
@@ -354,12 +360,8 @@ impl From<LocalResolutionResult> for ResolvedRecord {
             LocalResolutionResult::Partial { rrs } => {
                 ResolvedRecord::NonAuthoritative { rrs, soa_rr: None }
             }
-            LocalResolutionResult::Delegation { rrs, soa_rr, .. } => {
-                if let Some(soa_rr) = soa_rr {
-                    ResolvedRecord::Authoritative { rrs, soa_rr }
-                } else {
-                    ResolvedRecord::NonAuthoritative { rrs, soa_rr: None }
-                }
+            LocalResolutionResult::Delegation { rrs, .. } => {
+                ResolvedRecord::Referral { ns_rrs: rrs }
             }
             LocalResolutionResult::CNAME { rrs, .. } => {
                 ResolvedRecord::NonAuthoritative { rrs, soa_rr: None }
